@@ -44,7 +44,23 @@ def pipeline(tid, spec, gd, rng, events):
                   borders=w.save_borders_array, distances=w.save_distances_array)
     getters = dict(array=w.fg.get_full_grid_as_array, volumes=w.fg.get_total_volumes, adjacency=w.fg.get_full_adjacency,
                    borders=w.fg.get_full_borders, distances=w.fg.get_full_distances)
+    # workflow run_grid also asks the grid object for the position-only / orientation-only matrices; here on odd grids BEFORE
+    # anything is written, on even grids between the full adjacency and the rest (the workflow's order)
+    def inspect():
+        try:
+            with quiet():
+                w.fg.get_full_adjacency(only_position=True)
+                w.fg.get_full_adjacency(only_orientation=True)
+                w.fg.get_full_distances(only_orientation=True)
+                w.fg.get_full_distances(only_position=True)
+            ev("Inspect")
+        except Exception as ex:
+            events.append(dict(tid=tid, ev="Inspect", err=type(ex).__name__))
+    if tid % 2:
+        inspect()
     for art in ARTS:
+        if art == "borders" and tid % 2 == 0:
+            inspect()
         try:
             with quiet():
                 obj = getters[art]()
@@ -73,13 +89,16 @@ def pipeline(tid, spec, gd, rng, events):
     # the geometry as it was read, taken BEFORE the package's code sees it
     A = got["adjacency"].tocoo().copy()
     Sm0, hm0 = got["borders"].tocsr().copy(), got["distances"].tocsr().copy()
-    shv = [(int(i), int(j), float(Sm0[i, j]) / float(hm0[i, j])) for i, j, v in zip(A.row, A.col, A.data) if v]
+    ratio = lambda a, b: (a / b) if b != 0 else float("nan")
+    shv = [(int(i), int(j), ratio(float(Sm0[i, j]), float(hm0[i, j]))) for i, j, v in zip(A.row, A.col, A.data) if v]
     ncomp, _ = connected_components(A.tocsr(), directed=False)
     # two models from the SAME loaded matrices (as in a temperature / energy scan): both must be right
     for pass_no in (0, 1):
         T = rng.choice([200.0, 273.0, 300.0, 400.0])
         kk = np.array([rng.randint(0, 6) for _ in range(n)])
-        E = kk * (2 * kB * N_A * T * math.log(2) / 1000.0)
+        # the second model has energies with a large common offset (absolute force-field / QM energies): only differences matter
+        offset = 0.0 if pass_no == 0 else rng.choice([-25000.0, -6000.0, 4000.0, 30000.0])
+        E = kk * (2 * kB * N_A * T * math.log(2) / 1000.0) + offset
         ev("ComputeEnergy")
         D = rng.choice([0.5, 1.0, 2.0])
         rate = dict(tid=tid, ev="BuildRate", err="", n=n, adj=[], cond=[], sh=[], rowsum9=0, connected=bool(ncomp == 1))
